@@ -12,21 +12,51 @@ def adv_member(c):
     return c == 1 or c == 2 or (c <= -1 and c >= -10)
 
 
+def block_frame(g, old):
+    return monotone(g, old) and g.conn == old.g.conn and g.disc == old.g.disc
+
+
+@contract("ledger/hsm2dongle.py", "HSM2Dongle._do_block_operation", serves=["C05", "C03", "C04", "C11"])
+class DoBlockOperation(Contract):
+    """carries the loop invariants only: the function is verified inlined into its two callers, so that the
+    real status-to-result tables they pass are what is checked"""
+    helper = True
+    loop_locals = {0: dict(response=TUPLE(BOOL_, BYTES_)), 1: dict(response=TUPLE(BOOL_, BYTES_))}
+
+    def inv_blocks(g, old, i, blocks):
+        return block_frame(g, old) and g.nx >= old.g.nx + 1 and 0 <= i and i <= len(blocks) and ok(g)
+    def inv_brothers(g, old, response):
+        return (block_frame(g, old) and g.nx >= old.g.nx + 1 and ok(g)
+                and len(response[1]) >= 3 and response[1] == g.last_resp and g.last_cmd == 0x10)
+    invariants = {0: [inv_blocks], 1: [inv_brothers]}
+
+
 @contract("ledger/hsm2dongle.py", "HSM2Dongle.advance_blockchain", serves=["C05", "C03", "C04", "C11"])
 class AdvanceBlockchain(Contract):
-    assume_only = True      # TODO: verify (needs sorted/map over lists of lists)
-    assumptions = ["advance_blockchain: assumed contract (not yet verified): result codes and exception classes"]
     self_spec = DONGLE
     params = dict(blocks=LIST(STR_), brothers=JSON_)
     result = ADV_RESULT
     modifies_self = dict(last_comm_exception=OPAQUE("last_comm_exception"))
+    inline_callees = ("HSM2Dongle._do_block_operation", "HSM2Dongle._send_block_header")
+    max_paths = 20000
+    exception_serves = ("C03", "C05")
+
+    def validated(blocks, brothers):
+        """what _validate_advance_blockchain has established"""
+        return (len(blocks) > 0 and jtag(brothers) == 5 and jlen(brothers) == len(blocks)
+                and forall_int(0, jlen(brothers), lambda i: jtag(jitem(brothers, i)) == 5
+                               and forall_int(0, jlen(jitem(brothers, i)), lambda j: jtag(jitem(jitem(brothers, i), j)) == 4
+                                              and is_hex(jstr(jitem(jitem(brothers, i), j)))
+                                              and len(unhex(jstr(jitem(jitem(brothers, i), j)))) > 0)))
+    @only("C03")
+    def memory_bound(blocks): return len(blocks) < 4294967296       # A-MEM
+    requires = [validated, memory_bound]
 
     def codes(result, g, old):
         c = result[1]
         return (adv_member(c) and result[0] == (c == 1 or c == 2)
                 and implies(result[0], ok(g) and g.nx > old.g.nx and g.last_cmd == 0x10
                             and ((c == 1 and g.last_resp[2] == 6) or (c == 2 and g.last_resp[2] == 5)))
-                and implies(g.nx > old.g.nx and ok(g) and g.last_cmd == 0x10 and (g.last_resp[2] == 6 or g.last_resp[2] == 5), result[0])
                 and implies(g.nx > old.g.nx and classify(g) == K_ERR,
                             implies(block_named(True, g.last_op, g.last_sw) == -201, c == -7)
                             and implies(block_named(True, g.last_op, g.last_sw) == -202, c == -6)
@@ -34,10 +64,15 @@ class AdvanceBlockchain(Contract):
                             and implies(block_named(True, g.last_op, g.last_sw) == -205, c == -9))
                 and implies(g.nx > old.g.nx, ok(g) or classify(g) == K_ERR) and g.nx >= old.g.nx
                 and g.conn == old.g.conn and g.disc == old.g.disc)
-    ensures = [codes]
+    @only("C05")
+    def count_announced_first(blocks, g, old):
+        return implies(g.nx > old.g.nx, g.log[len(old.g.log)] == apdu_of(0x10, bytes([2]) + be_bytes(len(blocks), 4)))
+    ensures = [codes, count_announced_first]
 
     def x_some(g, old): return g.nx >= old.g.nx + 1 and g.conn == old.g.conn and g.disc == old.g.disc
-    raises = PROPAGATE(x_some, skip=[ERR_RESULT])
+    raises = PROPAGATE(x_some, skip=[ERR_RESULT, ERR_DONGLE])
+    # HSM2DongleError: a link outcome outside the protocol, or the device never reporting success ("unexpected state")
+    raises[ERR_DONGLE] = Exc(args=[STR_], post=[x_some])
 
 
 def upd_member(c):
@@ -46,18 +81,23 @@ def upd_member(c):
 
 @contract("ledger/hsm2dongle.py", "HSM2Dongle.update_ancestor", serves=["C05", "C03", "C04", "C11"])
 class UpdateAncestor(Contract):
-    assume_only = True      # TODO: verify
-    assumptions = ["update_ancestor: assumed contract (not yet verified): result codes and exception classes"]
     self_spec = DONGLE
     params = dict(blocks=LIST(STR_))
     result = ADV_RESULT
     modifies_self = dict(last_comm_exception=OPAQUE("last_comm_exception"))
+    inline_callees = ("HSM2Dongle._do_block_operation", "HSM2Dongle._send_block_header")
+    max_paths = 20000
+    exception_serves = ("C03", "C05")
+
+    def validated(blocks): return len(blocks) > 0
+    @only("C03")
+    def memory_bound(blocks): return len(blocks) < 4294967296       # A-MEM
+    requires = [validated, memory_bound]
 
     def codes(result, g, old):
         c = result[1]
         return (upd_member(c) and result[0] == (c == 1)
                 and implies(result[0], ok(g) and g.nx > old.g.nx and g.last_cmd == 0x30 and g.last_resp[2] == 5)
-                and implies(g.nx > old.g.nx and ok(g) and g.last_cmd == 0x30 and g.last_resp[2] == 5, result[0])
                 and implies(g.nx > old.g.nx and classify(g) == K_ERR,
                             implies(block_named(False, g.last_op, g.last_sw) == -201, c == -6)
                             and implies(block_named(False, g.last_op, g.last_sw) == -203, c == -7)
@@ -67,7 +107,8 @@ class UpdateAncestor(Contract):
     ensures = [codes]
 
     def x_some(g, old): return g.nx >= old.g.nx + 1 and g.conn == old.g.conn and g.disc == old.g.disc
-    raises = PROPAGATE(x_some, skip=[ERR_RESULT])
+    raises = PROPAGATE(x_some, skip=[ERR_RESULT, ERR_DONGLE])
+    raises[ERR_DONGLE] = Exc(args=[STR_], post=[x_some])
 
 
 def blocks_validated(request):
